@@ -20,7 +20,7 @@ META = {
             "index, parameters, likelihood (re-evaluated when parameters snap), code length, finiteness for recoverable chains, non-finite for nan chains.",
     "note": "A chain entry is an opaque object with the predicate isinstance(., dict). simplifier.convert_params itself (composition of the maps, Jacobian, J^-T F J^-1) is sympy/numpy linear algebra and is "
             "bounded only; the subset search of the infinite-likelihood fallback is covered only for a likelihood that is +inf at every re-evaluation. A-sympy, A-float.",
-    "technique": "contract-based deductive verification of the guard region and of the Hessian file layout, writer and reader (AST->VC->SMT) + bounded stand-in with independent Jacobian oracle",
+    "technique": "contract-based deductive verification of the guard / snapping regions of match.main and of the Hessian file layout, writer and reader (AST->VC->SMT) + symbolic execution of the matrix tail of simplifier.convert_params for k <= 3 (AST->QF_NRA) + bounded stand-in with independent Jacobian oracle",
 }
 CHECKER = "./bin/check C05"
 
